@@ -154,4 +154,31 @@ def kindOf (op : Gen.OpTable.Op) (d : Gen.OpTable.Driver) : Option Kind :=
     | _ => none
   | none => none
 
+/-! ## the length handed to the OS -/
+
+open Compio.Gen.OpTable (LenKind)
+
+def u32Max : Nat := 2 ^ 32 - 1
+
+/-- the number the OS receives for a buffer of `n` bytes, by the way the op derives it -/
+def lenHanded : LenKind → Nat → Nat
+  | .saturating, n => min n u32Max
+  | .cast, n => n % 2 ^ 32
+  | .toField, n => n
+  | .full, n => n
+
+/-- how op `op` on driver `d` derives the byte length it hands to the OS (regenerated table); an impl that
+passes the slice itself (no length expression) hands the full length -/
+def lenOf (op : Gen.OpTable.Op) (d : Gen.OpTable.Driver) : Option LenKind :=
+  match Gen.OpTable.rows.find? fun r => r.op = op ∧ r.driver = d with
+  | some r => match r.byteLens with
+    | [] => some .full
+    | [k] => some k
+    | _ => none
+  | none => none
+
+/-- a read into a fresh `Vec::with_capacity(cap)` (huge capacities are not materialised: only the bytes
+delivered are tracked): the OS is asked for `lenHanded lk cap` bytes of `avail` -/
+def hugeRead (lk : LenKind) (cap : Nat) (avail : Bytes) : Bytes := avail.take (lenHanded lk cap)
+
 end Compio.BufShape
